@@ -103,7 +103,7 @@ class C10(ProgramCheck):
         return [dict(max_nodes=3, leaves=U.LEAVES)]
 
     def nbhd_k(self, tier):
-        return 1  # thorough widens by a second base program and a deeper history instead
+        return 1 if tier == "quick" else 2
 
     def depth(self, tier):
         return 4 if tier == "quick" else 5
